@@ -767,6 +767,61 @@ func ruleT10(c *Ctx) {
 	c.check(n >= 3, "T10", "conditions", fn.Pos(), fmt.Sprintf("%d conditions in HdrLst.SetHdr (frozen minimum 3)", n))
 }
 
+// T11: bookkeeping only for completed headers. In ParseHeaders the flag update, the first-of-type registration and the
+// header counter are touched only where the verdict of ParseHdrLine, refined by the branches taken, is exactly Ok: a
+// header registered while it is still suspended (more-bytes) is a half-parsed copy that SetHdr never replaces.
+func ruleT11(c *Ctx) {
+	fn := c.SFuncs["ParseHeaders"]
+	if fn == nil {
+		c.fail("T11", "ParseHeaders", token.NoPos, "not found")
+		return
+	}
+	e := newErrAnalysis(c.Prog)
+	var errv ssa.Value
+	for _, b := range fn.Blocks {
+		for _, ins := range b.Instrs {
+			if call, ok := ins.(*ssa.Call); ok {
+				if cal := call.Call.StaticCallee(); cal != nil && cal.Name() == "ParseHdrLine" {
+					for _, r := range *call.Referrers() {
+						if ex, ok := r.(*ssa.Extract); ok && ex.Index == 1 {
+							errv = ex
+						}
+					}
+				}
+			}
+		}
+	}
+	if errv == nil {
+		c.fail("T11", "ParseHeaders:verdict", fn.Pos(), "verdict of ParseHdrLine not found")
+		return
+	}
+	n := 0
+	for _, b := range fn.Blocks {
+		for _, ins := range b.Instrs {
+			what := ""
+			switch x := ins.(type) {
+			case *ssa.Call:
+				if cal := x.Call.StaticCallee(); cal != nil {
+					if k := ssaKey(cal); k == "HdrLst.SetHdr" || k == "HdrFlags.Set" {
+						what = k
+					}
+				}
+			case *ssa.Store:
+				if fa, ok := x.Addr.(*ssa.FieldAddr); ok && fieldCell(fa) == "HdrLst.N" {
+					what = "N++"
+				}
+			}
+			if what == "" {
+				continue
+			}
+			n++
+			vs := e.refined(errv, b)
+			c.check(vs == VSet(1), "T11", fmt.Sprintf("ParseHeaders:%s#%d", what, n), ins.Pos(), fmt.Sprintf("%s happens only where the verdict of ParseHdrLine is exactly Ok (refined verdict set here: %s)", what, e.setName("ErrorHdr", vs)))
+		}
+	}
+	c.check(n >= 3, "T11", "instances", fn.Pos(), fmt.Sprintf("%d bookkeeping sites in ParseHeaders (frozen minimum 3)", n))
+}
+
 func init() {
 	register(&PropDef{
 		ID: "C07",
@@ -776,6 +831,7 @@ func init() {
 			{"T3", "the flag word has a bit for every header type, HdrOther is the largest type, the first-of-type table has HdrOther-1 slots indexed Type-1 and keeps the first header of a type", ruleT3},
 			{"T5", "line-end accounting in every streaming caller: on every path from an end-of-header verdict of a line-end skipper (offset, line-end length, verdict) to a return with a completing verdict, the returned offset is that call's offset plus that call's line-end length (phis resolved by the edge taken), never a guessed length", ruleT5},
 			{"T6", "exact byte sets of the scanners header names and generic values are cut with (shared with C08-S5): skipTokenDelim, skipToken, skipWS, skipLine", func(c *Ctx) { scannerSets(c, "T6") }},
+			{"T11", "bookkeeping only for completed headers: in ParseHeaders the type flag, the first-of-type registration and the header counter are updated only where the verdict of ParseHdrLine, refined by the branches taken, is exactly Ok — never for a header that is still suspended", ruleT11},
 			{"T10", "the first header of a type is recorded whatever it looks like: every condition in HdrLst.SetHdr is a range test of the slot index computed from the header's Type alone, or Missing() of that table slot; an empty value or name is no reason to skip the first occurrence", ruleT10},
 			{"T9", "a header type is not a flag: no value of one named integer type of the package (HdrT, HdrFlags, OffsT, ErrorHdr, SIPMethod, ...) is converted directly to another one; the flag of a header type exists only as 1 << type inside HdrFlags.Set/Test, so the type-flag set and the first-of-type lookup are indexed consistently", ruleT9},
 			{"T8", "the automaton extracted from ParseHdrLine equals the reviewed reference table (ref/ParseHdrLine.txt): for every state and byte class the next state or exit, the verdict set, the field actions with their arguments (locals other than the scan index abstracted) and the returned offset; a transition that loses an action, changes target, verdict or byte class shows up as a missing and an extra row", func(c *Ctx) { fsmRefRule(c, "T8", "ParseHdrLine") }},
